@@ -191,7 +191,7 @@ structure DSt where
   shifts : Array (List (Rect × Int × Int)) := #[]
   closed : Array Bool := #[]
   prevGrid : Option (Array (Array Cell)) := none     -- the implementation's grid before this operation
-  unclipped : Bool := false     -- the history scrolled a region extending beyond an ancestor's bounds (known finding)
+  unclipped : Bool := false     -- the history scrolled a region extending beyond an ancestor's bounds (diagnostic note only; the defect it pointed at is repaired: 8032ab5)
   -- specification state: from the operation lines and the implementation's observations only
   obsTree : Option Tree := none                      -- the implementation's tree as observed after the previous operation
   zKids : Array (List Id) := #[]                     -- abstract child lists (front-most first), by parent id
@@ -778,13 +778,9 @@ def runOp (d : DSt) (ts : List String) : DSt × String :=
                 let (st', ret) ← scrollWindow (oracleOf d.mode) st id dd rr
                 pure (st', ret, self)
               else
-                let (st', ret) ← scrollWithChildren (oracleOf d.mode) st id dd rr
-                let w ← get st'.tree id
-                let tr ← w.children.foldlM (fun tr ch => do
-                  let cw ← get tr ch
-                  let (tr, _) ← setGeometry tr ch { cw.rect with top := cw.rect.top - dd, left := cw.rect.left - rr }
-                  pure tr) st'.tree
-                pure ({ st' with tree := tr }, ret, self)
+                -- the compound step of `Props.C01.scrollch_step_full`: the call, then the application moves the children
+                let (st', ret) ← scrollWithChildrenMoved (oracleOf d.mode) st id dd rr
+                pure (st', ret, self)
             match r with
             | .ub w => fail d w
             | .ok (st', ret, self) =>
